@@ -68,7 +68,11 @@ def run_label_case(case):
     kind, n, obj, i, mode = case['span'], case['n'], case['obj'], case['i'], case['mode']
     c, labels = make(kind, n, obj)
     out = []
-    label = spans.absent_label(kind) if i == 'absent' else labels[i]
+    if i == 'absent-tuple':
+        label = (labels[0],)  # a 1-tuple wrapping an existing label is a different (absent) label
+        i = 'absent'
+    else:
+        label = spans.absent_label(kind) if i == 'absent' else labels[i]
     before = snap(c)
     if mode == 'get':
         try:
@@ -150,6 +154,11 @@ def run_path_case(case):
     kind, n, obj, i, w = case['span'], case['n'], case['obj'], case['i'], case['write']
     c, labels = make(kind, n, obj)
     label = labels[i]
+    if case.get('pre') == 'int-list':
+        # history: the whole series was assigned from an all-integer list before (it must remain a float series)
+        c.Y = list(range(2, n + 2))
+    elif case.get('pre') == 'int-tuple-key':
+        c['Y'] = tuple(range(2, n + 2))
     before = snap(c)
     full = before['Y'].copy()
     full[i] = SENTINEL
@@ -240,7 +249,7 @@ def run_block(block, tier, seed):
                 for key, exp, obs, what in safe(run_name_case, case, acc):
                     acc.violation(key, case, exp, obs, what)
     _, labels = spans.make(kind, n)
-    choices = list(range(n)) + ['absent']
+    choices = list(range(n)) + ['absent'] + ([] if kind.startswith('np_') or kind == 'list_mixed' else ['absent-tuple'])
     for i in choices:
         for mode in ('get', 'set'):
             case = dict(kind='label', span=kind, n=n, obj=obj, i=i, mode=mode)
@@ -259,11 +268,12 @@ def run_block(block, tier, seed):
                     acc.violation(key + ':' + kind, case, exp, obs, what)
     for i in range(n):
         for w in WRITE_PATHS:
-            case = dict(kind='path', span=kind, n=n, obj=obj, i=i, write=w)
-            acc.evaluations += 1
-            acc.nontrivial += 1
-            for key, exp, obs, what in safe(run_path_case, case, acc):
-                acc.violation(key, case, exp, obs, what)
+            for pre in (None, 'int-list', 'int-tuple-key'):
+                case = dict(kind='path', span=kind, n=n, obj=obj, i=i, write=w, pre=pre)
+                acc.evaluations += 1
+                acc.nontrivial += 1
+                for key, exp, obs, what in safe(run_path_case, case, acc):
+                    acc.violation(key + (':after-int-sequence' if pre else ''), case, exp, obs, what)
     acc.outcome((kind, n))
     acc.sample(dict(kind='slice', span=kind, n=n, obj=obj, si=0, ei=n - 1, step=2, mode='get'), limit=1)
     return acc
